@@ -115,6 +115,8 @@ pub struct Exec {
     pub live_send: i32,
     pub live_recv: i32,
     pub quiescent_obs: Vec<(u64, Obs)>,
+    pub waker_misuse: Vec<String>,
+    pub waker_keepalive: Vec<Arc<WakerData>>,
 }
 
 pub static EXEC: Mutex<Option<Exec>> = Mutex::new(None);
@@ -210,31 +212,98 @@ unsafe impl<P: Send> Send for Tables<P> {}
 // wakers
 // ---------------------------------------------------------------------------
 
-struct WakerData {
+/// Harness waker.  Every instance (the harness' own one plus every clone the library
+/// makes) is counted, so a wake / clone that goes through an instance the library no
+/// longer owns -- a dangling reference into a dropped future -- is detected without
+/// relying on where the access hooks sit in the library's source.
+pub struct WakerData {
     wid: u32,
+    owner: usize,
+    total: std::sync::atomic::AtomicI32,
+    harness_alive: std::sync::atomic::AtomicBool,
+}
+use std::sync::atomic::Ordering as AO;
+
+fn check_use(a: &WakerData, what: &str) {
+    let kanal_held = a.total.load(AO::SeqCst) - a.harness_alive.load(AO::SeqCst) as i32;
+    let by_owner_in_poll = a.harness_alive.load(AO::SeqCst) && rt::vid() == a.owner;
+    if kanal_held < 1 && !by_owner_in_poll {
+        let d = format!(
+            "{} on waker {} by thread {} although the library holds no live instance of it (the future that stored it is gone or has replaced it)",
+            what,
+            a.wid,
+            rt::vid() as isize
+        );
+        exec(|e| {
+            if e.waker_misuse.len() < 4 {
+                e.waker_misuse.push(d)
+            }
+        });
+    }
 }
 unsafe fn w_clone(p: *const ()) -> RawWaker {
+    let a = &*(p as *const WakerData);
+    check_use(a, "clone");
+    a.total.fetch_add(1, AO::SeqCst);
     Arc::increment_strong_count(p as *const WakerData);
     RawWaker::new(p, &VTABLE)
 }
 unsafe fn w_wake(p: *const ()) {
     let a = Arc::from_raw(p as *const WakerData);
+    rt::waker_point();
+    check_use(&a, "wake");
     rt::waker_wake(a.wid);
+    a.total.fetch_sub(1, AO::SeqCst);
 }
 unsafe fn w_wake_by_ref(p: *const ()) {
     let a = &*(p as *const WakerData);
+    rt::waker_point();
+    check_use(a, "wake_by_ref");
     rt::waker_wake(a.wid);
 }
 unsafe fn w_drop(p: *const ()) {
-    drop(Arc::from_raw(p as *const WakerData));
+    let a = Arc::from_raw(p as *const WakerData);
+    a.total.fetch_sub(1, AO::SeqCst);
+    drop(a);
 }
 static VTABLE: RawWakerVTable = RawWakerVTable::new(w_clone, w_wake, w_wake_by_ref, w_drop);
 
-fn make_waker() -> (Waker, u32) {
+/// The harness' own instance; dropping it is not a library action.
+pub struct HWaker {
+    w: Option<Waker>,
+    data: Arc<WakerData>,
+}
+impl std::ops::Deref for HWaker {
+    type Target = Waker;
+    fn deref(&self) -> &Waker {
+        self.w.as_ref().unwrap()
+    }
+}
+impl Drop for HWaker {
+    fn drop(&mut self) {
+        self.data.harness_alive.store(false, AO::SeqCst);
+        self.w.take();
+    }
+}
+
+fn make_waker() -> (HWaker, u32) {
     let wid = rt::new_waker();
-    let a = Arc::new(WakerData { wid });
-    let raw = RawWaker::new(Arc::into_raw(a) as *const (), &VTABLE);
-    (unsafe { Waker::from_raw(raw) }, wid)
+    let a = Arc::new(WakerData {
+        wid,
+        owner: rt::vid(),
+        total: std::sync::atomic::AtomicI32::new(1),
+        harness_alive: std::sync::atomic::AtomicBool::new(true),
+    });
+    // kept alive until the end of the execution so that a dangling use can be examined
+    exec(|e| e.waker_keepalive.push(a.clone()));
+    let raw = RawWaker::new(Arc::into_raw(a.clone()) as *const (), &VTABLE);
+    (
+        HWaker {
+            w: Some(unsafe { Waker::from_raw(raw) }),
+            data: a,
+        },
+        wid,
+    )
 }
 
 // ---------------------------------------------------------------------------
@@ -363,7 +432,7 @@ fn dur(a: u8) -> (Duration, u64) {
 struct Ctx<P: Payload> {
     t: usize,
     tabs: Arc<Tables<P>>,
-    stream: Option<(usize, Pin<Box<ReceiveStream<'static, P>>>, Waker, u32)>,
+    stream: Option<(usize, Pin<Box<ReceiveStream<'static, P>>>, HWaker, u32)>,
     stream_seq: u32,
 }
 
@@ -437,10 +506,10 @@ impl<T> Poller<'_, T> {
 fn drive<T>(
     gi: u32,
     script: [Step; 4],
-    first_waker: Option<(Waker, u32)>,
+    first_waker: Option<(HWaker, u32)>,
     mut poll: impl FnMut(&Waker) -> Poll<T>,
     is_stream: bool,
-) -> (AsyncOut<T>, Option<(Waker, u32)>) {
+) -> (AsyncOut<T>, Option<(HWaker, u32)>) {
     if script[0] == Step::Drop {
         return (AsyncOut::Dropped(0), first_waker);
     }
